@@ -83,10 +83,10 @@ def gen_geometry(rng, m, ground):
     L = rng.choice([5.0, 10.0, 21.414285, 16.0])
     n = rng.randrange(4, 11)
     free_t = ['dipole', 'vee', 'tee_free', 'star', 'two_wires', 'tapered',
-              'arc', 'helix', 'loop', 'bent3', 'radii2', 'array', 'zigzag', 'mixed']
+              'arc', 'helix', 'loop', 'bent3', 'radii2', 'array', 'zigzag', 'mixed', 'array_tail']
     gnd_t = ['monopole', 'monopole_ud', 'inv_l', 'tee_gnd', 'dipole', 'vee',
              'two_monopoles', 'arc', 'helix', 'gnd_star', 'tapered', 'two_wires',
-             'array', 'zigzag', 'mixed', 'gnd_fan']
+             'array', 'zigzag', 'mixed', 'gnd_fan', 'array_tail']
     t = rng.choice(gnd_t if ground else free_t)
     m.template = t
     m.length = L
@@ -198,6 +198,20 @@ def gen_geometry(rng, m, ground):
         for i in range(k):
             li = L * (1 - 0.07 * i)
             wire(rng.randrange(3, 7), (i * L / 6, -li / 2, h), (i * L / 6, li / 2, h))
+    elif t == 'array_tail':
+        # 2..4 unconnected parallel elements and a tail (or two) whose END
+        # is joined to the tip of one of them
+        k = rng.randrange(2, 5)
+        ne = rng.randrange(4, 9)
+        for i in range(k):
+            wire(ne, (i * L / 5, -L / 2, h + 1), (i * L / 5, L / 2, h + 1))
+        for j in range(rng.choice([1, 1, 2])):
+            i = rng.randrange(k)
+            tip = (i * L / 5, L / 2 if j == 0 else -L / 2, h + 1)
+            far = (tip[0] + 0.3, tip[1], tip[2] + L / 6)
+            ends = (far, tip) if rng.random() < 0.7 else (tip, far)
+            wire(rng.randrange(3, 6), *ends)
+        m.features.append('tail')
     elif t == 'zigzag':
         # a chain of 5..7 connected wires
         k = rng.randrange(5, 8)
@@ -504,7 +518,61 @@ def variant_model(rng, m):
     import copy
     v = copy.deepcopy(m)
     how = rng.choice(['scale', 'scale', 'same', 'load_value', 'voltage', 'translate', 'rotate', 'drop_loads',
-                      'taper', 'segments', 'radius', 'media_form', 'media_form'])
+                      'taper', 'segments', 'radius', 'media_form', 'media_form',
+                      'toggle_ground', 'toggle_ground', 'other_ground', 'reattach', 'reattach'])
+    if 'tail' in m.features and rng.random() < 0.5:
+        how = 'reattach'
+    if how == 'reattach':
+        # same wires, same segment counts, but one wire end joined to a
+        # different wire end (the topology changes, the counts do not)
+        wi = [i for i, x in enumerate(v.argv_geo) if x == '-w']
+        wires = [g for g in v.geo if g['kind'] == 'wire' and 'p1' in g]
+        done = False
+        if len(wi) == len(wires) and len(wires) >= 3:
+            order = list(range(1, len(wires)))
+            rng.shuffle(order)
+            for j in order:
+                for end in ('p2', 'p1'):
+                    e = wires[j][end]
+                    partners = [k for k in range(len(wires)) if k != j and e in (wires[k]['p1'], wires[k]['p2'])]
+                    if not partners:
+                        continue
+                    # candidate new attachment points: ends of other wires
+                    cands = [q for k in range(len(wires)) if k != j and k not in partners
+                             for q in (wires[k]['p1'], wires[k]['p2'])
+                             if q != wires[j]['p1'] and q != wires[j]['p2']]
+                    if not cands:
+                        continue
+                    q = rng.choice(cands)
+                    parts = v.argv_geo[wi[j] + 1].split(',')
+                    off = 1 if len(parts) == 9 else 0
+                    pos = off + 1 + (0 if end == 'p1' else 3)
+                    parts[pos:pos + 3] = [_g(c) for c in q]
+                    v.argv_geo[wi[j] + 1] = ','.join(parts)
+                    wires[j][end] = tuple(float(c) for c in q)
+                    done = True
+                    break
+                if done:
+                    break
+        if not done:
+            how = rng.choice(['voltage', 'segments', 'radius', 'same'])
+        else:
+            v.exact = False
+    if how in ('toggle_ground', 'other_ground'):
+        # the same structure in another environment
+        zs = [e[2] for g in v.geo for e in (g.get('p1'), g.get('p2')) if e]
+        clear = bool(zs) and min(zs) > 0 and all('p1' in g for g in v.geo)
+        if how == 'other_ground' and v.env != 'free':
+            v.argv_env = [rng.choice(['--medium=0,0,0', '--medium=13,0.005,0', '--medium=5,0.001,0'])]
+            v.env = 'ideal' if v.argv_env[0].endswith('=0,0,0') else 'real1'
+        elif v.env == 'free' and clear and not any(x.startswith('--geo-') for x in v.argv_geo):
+            v.argv_env = [rng.choice(['--medium=0,0,0', '--medium=0,0,0', '--medium=13,0.005,0'])]
+            v.env = 'ideal' if v.argv_env[0].endswith('=0,0,0') else 'real1'
+        elif v.env != 'free' and clear:
+            v.argv_env = []
+            v.env = 'free'
+        else:
+            how = rng.choice(['voltage', 'segments', 'radius', 'same'])
     if how == 'media_form':
         # the same kind of environment written in another form: interface
         # coordinate dropped or added, other boundary, radials on/off
@@ -519,7 +587,7 @@ def variant_model(rng, m):
             if rng.random() < 0.3:
                 v.argv_env = [x for x in v.argv_env if not x.startswith('--radial')]
         else:
-            how = 'voltage'
+            how = rng.choice(['voltage', 'segments', 'radius', 'same'])
     ground = m.env != 'free'
     if how == 'scale':
         have = [i for i, x in enumerate(v.argv_geo) if x == '--geo-scale']
@@ -532,7 +600,7 @@ def variant_model(rng, m):
         elif not ground:
             v.argv_geo += ['--geo-scale', _g(rng.choice([2.0, 3.0, 0.5]))]
         else:
-            how = 'voltage'
+            how = rng.choice(['voltage', 'segments', 'radius', 'same'])
     if how == 'load_value':
         done = False
         for i, x in enumerate(v.argv_load):
@@ -553,7 +621,7 @@ def variant_model(rng, m):
                 done = True
                 break
         if not done:
-            how = 'voltage'
+            how = rng.choice(['voltage', 'segments', 'radius', 'same'])
     if how == 'voltage':
         n = sum(1 for x in v.argv_src if x.startswith('--excitation-pulse'))
         v.argv_src = [x for x in v.argv_src if not x.startswith('--excitation-voltage')]
@@ -659,11 +727,11 @@ def gen_far(rng):
 def gen_near(rng, m):
     L = m.length
     start = [rng.choice([1.0, -2.0, L / 2]), rng.choice([1.0, 3.0]), rng.choice([1.5, 5.0, L])]
-    inc = [rng.choice([1.0, 0.5]), rng.choice([1.0, 2.0]), rng.choice([1.0, 3.0])]
+    inc = [rng.choice([1.0, 0.5, 0.1, 0.3]), rng.choice([1.0, 2.0, 0.7]), rng.choice([1.0, 3.0, 0.2, 0.1])]
     cnt = rng.choice([[1, 1, 1], [2, 1, 1], [1, 2, 1], [1, 1, 3], [2, 2, 1], [2, 1, 2], [2, 2, 2],
                       [3, 1, 1], [1, 3, 2], [4, 2, 1], [1, 1, 5]])
-    if rng.random() < 0.06:
-        cnt = rng.choice([[3, 3, 3], [10, 1, 1], [2, 5, 2], [1, 1, 20]])
+    if rng.random() < 0.08:
+        cnt = rng.choice([[3, 3, 3], [10, 1, 1], [2, 5, 2], [1, 1, 20], [4, 4, 4], [2, 2, 10], [5, 5, 2]])
     if rng.random() < 0.2:
         inc[rng.randrange(3)] *= -1
     if rng.random() < 0.15:
@@ -767,7 +835,7 @@ def gen_api_ops(rng, npool, nfar, nnear, maxops):
             elif r < 0.25:
                 op = ['COMPUTE']
             elif r < 0.42 and nfar:
-                op = ['FAR', rng.randrange(nfar), rng.choice(['', '', 'r', 'p', 'rp'])]
+                op = ['FAR', rng.randrange(nfar), rng.choice(['', '', 'r', 'p', 'rp', 'm', 'm'])]
             elif r < 0.57 and nnear:
                 op = ['NEAR', rng.randrange(nnear), rng.choice(['', '', 'r', 'ra'])]
             elif r < 0.75:
@@ -988,6 +1056,9 @@ def env_side(rng, perturbed, side):
                    p_stall=rng.choice([0, 0.1, 0.3])),
         junk=[rng.randrange(1 << 30), rng.choice([0, 3, 17, 120, 1000])],
         poison='nan' if side == 'hist' else '1e300',
+        host=rng.choice(['shack', 'node-17.example.org', 'localhost', 'oe1rsa-pc']),
+        pid=rng.randrange(2, 4000000),
+        cpus=rng.choice([1, 2, 4, 16, 64]),
         environ={'TZ': rng.choice(['UTC', 'Europe/Vienna', 'Asia/Kolkata', 'Pacific/Chatham']),
                  'COLUMNS': str(rng.choice([20, 80, 200])),
                  'LANG': rng.choice(['C', 'de_AT.UTF-8', 'tr_TR.UTF-8']),
@@ -1010,7 +1081,7 @@ def gen_plan(run_seed, tier='quick', env=None, kinds=None, shape=None):
         shape = 'direct+direct'
     elif shape == 'api+cli' and env is None and rng.random() < 0.2:
         shape = 'direct+cli'
-    shared = rng.choice(['shared_ideal', 'shared_ideal', 'ideal'])
+    shared = rng.choice(['shared_ideal', 'shared_ideal', 'ideal', 'shared_real', 'shared_real'])
     siblings = rng.random() < 0.5
     first = None
     for kind in shape.split('+'):
